@@ -138,7 +138,12 @@ func runC09(c *hx.Ctx) *hx.Outcome {
 				}
 			})
 		}
-		var cfg jsonconfig.Config
+		// the file handler's EOF tolerance: zero (a finite file) or not (a live
+		// line: the terminal EOF is retried until the tolerance has passed)
+		cfg := jsonconfig.Config{TimeoutOnEOFMilliSeconds: []uint{0, 0, 0, 50, 2000}[t.S(5)], WaitTimeOnEOFMilliseconds: []uint{0, 20}[t.S(2)]}
+		if cfg.TimeoutOnEOFMilliSeconds > 0 {
+			o.Probe("nonzero-eof-tolerance")
+		}
 		ac := appcore.New(&cfg, chans)
 		retCode = ac.HandleMessagesUntilEOF(startTime, bufio.NewReader(src))
 		returned = true
@@ -320,7 +325,16 @@ func runC13(c *hx.Ctx) *hx.Outcome {
 	s := c.NewSim()
 	s.ChooseStrategy()
 	s.SetStarveKey([]string{"consumer", "handler.go", "file-handler"}[t.D(3)])
-	s.Budget = 96*(len(data)+16) + 20000
+	// a handler may legitimately re-poll every WaitTimeOnEOF until the tolerance
+	// has passed: allow for that many retries
+	polls := 0
+	if tol > 0 {
+		polls = int(tol) / int(max(wait, 1))
+		if polls > 70000 {
+			polls = 70000
+		}
+	}
+	s.Budget = 96*(len(data)+16) + 20000 + 12*polls*(len(ints)+1)
 	src := &env.Source{T: t, Data: data, Ints: ints, MaxChunk: []int{1, 7, 64, 4096, 8192}[t.S(5)], DataWithErr: t.SBool(1, 3), ZeroReads: t.SBool(1, 4)}
 	var got []rtcm.Message
 	closed := 0
